@@ -152,11 +152,13 @@ func (w *WorkerCtx) LogAttrsAt(ctx context.Context, pc uintptr, level slog.Level
 // - Panic catching.
 // - Flow control helpers.
 func (m *Manager) Go(name string, fn func(w *WorkerCtx) error) {
+	// Count the worker before its goroutine is created: a worker that was
+	// handed over but is not yet running must hold up WaitForWorkers.
+	m.workerStart()
 	go m.manageWorker(name, fn)
 }
 
 func (m *Manager) manageWorker(name string, fn func(w *WorkerCtx) error) {
-	m.workerStart()
 	defer m.workerDone()
 
 	w := &WorkerCtx{
